@@ -1339,12 +1339,13 @@ class Session:
                 ediv=self.peer_ediv,
                 rand=self.peer_rand,
             )
-            if self.is_initiator:
-                keys.ltk_central = peer_ltk_key
-                keys.ltk_peripheral = our_ltk_key
-            else:
-                keys.ltk_central = our_ltk_key
-                keys.ltk_peripheral = peer_ltk_key
+            # ltk_central is the key to use when we are the central on a later
+            # connection (the one distributed by the peer), ltk_peripheral the key
+            # to use when we are the peripheral (the one we distributed): that is
+            # how Device.encrypt and Device.get_long_term_key read them, whichever
+            # side initiated the pairing.
+            keys.ltk_central = peer_ltk_key
+            keys.ltk_peripheral = our_ltk_key
         if self.peer_identity_resolving_key is not None:
             keys.irk = PairingKeys.Key(
                 value=self.peer_identity_resolving_key, authenticated=authenticated
